@@ -520,10 +520,13 @@ func (s *Server) sendStreamingResults(c *streamClient) {
 
 		// s.processSubscription will send a sync marker, handle it separately.
 		if _, ok := item.(syncMarker); ok {
+			// The sync response is subject to the send timeout like any other.
+			t.Reset(s.o.timeout)
 			if err = c.stream.Send(subscribeSync); err != nil {
 				c.errC <- err
 				return
 			}
+			t.Stop()
 			continue
 		}
 
